@@ -126,6 +126,29 @@ class Job:
         self.inconclusive.append(what + ": solver returned unknown")
         return None
 
+    def claims_and_safety(self, ctx, claims, make_cex, timeout_ms=None):
+        """One query for several claims plus all pending safety obligations; split only if it fails."""
+        obs = list(ctx.obligations)
+        parts = [V.zb(c) if not isinstance(c, z3.BoolRef) else c for c, _ in claims]
+        for o in obs:
+            parts.append(z3.Implies(z3.And(*o.guard.atoms) if o.guard.atoms else z3.BoolVal(True), o.cond))
+        n = len(claims) + len(obs)
+        if not parts:
+            return True
+        _t = time.time()
+        r = ctx.fresh_sat([z3.Not(z3.And(*parts))], timeout_ms)
+        self.extra["batch_s"] = round(self.extra.get("batch_s", 0) + time.time() - _t, 2)
+        if r == "unsat":
+            self.obligations += n
+            self.discharged += n
+            ctx.obligations = []
+            return True
+        ok = self.safety(ctx, make_cex, timeout_ms=timeout_ms)
+        for c, what in claims:
+            if self.claim(ctx, c, what, make_cex, timeout_ms) is not True:
+                ok = False
+        return ok
+
     def safety(self, ctx, make_cex, kinds=None, timeout_ms=None):
         """Discharge the safety obligations the interpreter collected on this path
         (array bounds, overflow, type errors)."""
